@@ -328,6 +328,13 @@ def gen_fault_cases(g, tier):
             base["faults"] = {"linear": {what[0]: what[1]}}
             base["variant"] = "linear"
             cases.append(base)
+    # targeted: the SECOND Newton solve of a trial fails (the ratio controllers take two Newton steps per trial)
+    for sct in ("DistanceRatio", "DistanceRatio", "ResiduumRatio"):
+        base = C.gen_case(g, "convex_qp", {"iteration_limit": 30, "penalty_update": "DualNorm", "linear_solver_type": "LU",
+                                           "step_control_type": sct, "report_rcond": False}, scaling=False)
+        base["faults"] = {"linear": {"solve": r.choice([2, 2, 4])}}
+        base["variant"] = "linear"
+        cases.append(base)
     # targeted: each callback failing at the starting point (the Hessian's only evaluation there is the problem statistics)
     for nm in ("obj", "obj_grad", "cons", "cons_jac", "lag_hess", "lag_hess"):
         # (convex_qp: the Hessian certainly has stored entries; nonlinear: the constraint callbacks do)
@@ -387,6 +394,11 @@ def oracle_C07(case, rec):
     for i, t in enumerate(rec.get("trials", [])):
         if not t["acc"] and t["lamb"] <= 1.0 / t["dt"]:
             return "fail_doubles: trial %d not accepted but lambda did not increase" % i
+    for i in rec.get("linear_fault_trials", []):
+        # the factorisation / back-solve of one of this trial's Newton steps raised: whatever else the trial computed, its
+        # result is not a step (back-solves of the condition estimator are exempt: they are not part of the step)
+        if i < len(rec.get("trials", [])) and rec["trials"][i]["acc"] and not case["cfg"].get("report_rcond"):
+            return "accepted_failed_trial: trial %d was accepted although a linear solve of it failed" % i
     return None
 
 
